@@ -296,6 +296,41 @@ def run_case(case):
                             break
                     if len(v) > 4:
                         break
+            # faults on the HEAD probes (shard discovery, file_exists)
+            for mode in ("404", "500", "503"):
+                h = accessor_mod.get_accessor_for_url(f"{srv.base}/ds")
+                ch = targets[0]
+                srv.arm(mode, "/" + ch[0] + "/", methods=("HEAD",))
+                try:
+                    r = h.fetch_chunk(*ch)
+                    outcome = ("returned", r)
+                except Exception as exc:  # noqa: BLE001
+                    outcome = ("raised", exc)
+                hits = srv.disarm()
+                obs["fault_cases"] += 1
+                if hits:
+                    obs["faults_injected_by_server"] += 1
+                    obs["head_faults"] = obs.get("head_faults", 0) + 1
+                    if outcome[0] == "returned" and bytes(outcome[1]) != want[ch]:
+                        v.append({"kind": "server-fault-returned-as-data",
+                                  "detail": f"{ctx} chunk {ch}: {mode!r} on HEAD probes: "
+                                  f"fetch_chunk returned {len(outcome[1])} different bytes"})
+                h = accessor_mod.get_accessor_for_url(f"{srv.base}/ds")
+                srv.arm(mode, "/ds/info", methods=("HEAD",))
+                try:
+                    ex = h.file_exists("info")
+                    outcome = ("returned", ex)
+                except DataAccessError:
+                    outcome = ("DataAccessError", None)
+                except Exception as exc:  # noqa: BLE001
+                    outcome = (type(exc).__name__, None)
+                hits = srv.disarm()
+                if hits:
+                    ok = (mode == "404" and outcome == ("returned", False)) or \
+                        (mode != "404" and outcome[0] == "DataAccessError")
+                    if not ok:
+                        v.append({"kind": "file_exists-under-fault",
+                                  "detail": f"{ctx}: {mode!r} on HEAD info: {outcome}"})
             # info file under fault (plain accessor): fetch_file must raise
             for mode in ("404", "500", "drop"):
                 h = accessor_mod.get_accessor_for_url(f"{srv.base}/ds")
